@@ -717,6 +717,11 @@ ASMJIT_FAVOR_SPEED Error Assembler::_emit(InstId inst_id, const Operand_& o0, co
         goto InvalidInstruction;
 
       rm_info = mem_info_table[size_t(o0.as<Reg>().reg_type())];
+
+      // 16-bit addressing is only encodable in 32-bit mode.
+      if (ASMJIT_UNLIKELY((rm_info & kX86MemInfo_67H_X86) != 0 && !is_32bit()))
+        goto InvalidAddress;
+
       writer.emit_address_override((rm_info & _address_override_mask()) != 0);
       goto EmitX86Op;
 
@@ -3943,6 +3948,10 @@ EmitX86OpImplicitMem:
   if (ASMJIT_UNLIKELY(rm_rel->as<Mem>().base_id() == Gp::kIdDi && rm_rel->as<Mem>().has_segment() && rm_rel->as<Mem>().segment_id() != SReg::kIdEs))
     goto InvalidSegment;
 
+  // 16-bit addressing is only encodable in 32-bit mode.
+  if (ASMJIT_UNLIKELY((rm_info & kX86MemInfo_67H_X86) != 0 && !is_32bit()))
+    goto InvalidAddress;
+
   // Emit override prefixes (REX has to be the last prefix).
   writer.emit_segment_override(rm_rel->as<Mem>().segment_id());
   writer.emit_address_override((rm_info & _address_override_mask()) != 0);
@@ -4006,6 +4015,10 @@ EmitX86RFromM:
   if (ASMJIT_UNLIKELY(rm_rel->as<Mem>().has_offset() || (rm_info & kX86MemInfo_Index)))
     goto InvalidInstruction;
 
+  // 16-bit addressing is only encodable in 32-bit mode.
+  if (ASMJIT_UNLIKELY((rm_info & kX86MemInfo_67H_X86) != 0 && !is_32bit()))
+    goto InvalidAddress;
+
   // Emit override prefixes (REX has to be the last prefix).
   writer.emit_segment_override(rm_rel->as<Mem>().segment_id());
   writer.emit_address_override((rm_info & _address_override_mask()) != 0);
@@ -4055,6 +4068,11 @@ EmitX86M:
 
   // Emit override prefixes.
   rm_info = mem_info_table[rm_rel->as<Mem>().base_and_index_types()];
+
+  // 16-bit addressing is only encodable in 32-bit mode.
+  if (ASMJIT_UNLIKELY((rm_info & kX86MemInfo_67H_X86) != 0 && !is_32bit()))
+    goto InvalidAddress;
+
   writer.emit_segment_override(rm_rel->as<Mem>().segment_id());
 
   mem_op_ao_mark = writer.cursor();
@@ -4678,6 +4696,11 @@ EmitVexEvexM:
   ASMJIT_ASSERT(rm_rel->op_type() == OperandType::kMem);
 
   rm_info = mem_info_table[rm_rel->as<Mem>().base_and_index_types()];
+
+  // 16-bit addressing is only encodable in 32-bit mode.
+  if (ASMJIT_UNLIKELY((rm_info & kX86MemInfo_67H_X86) != 0 && !is_32bit()))
+    goto InvalidAddress;
+
   writer.emit_segment_override(rm_rel->as<Mem>().segment_id());
 
   mem_op_ao_mark = writer.cursor();
